@@ -16,7 +16,8 @@ CFG = {
             "transaction of the tree, GetBlock/GetHeader/GetBody/GetReceiptsByHash, head pointers, state availability) and (a) judged "
             "directly against the statement of C03, (b) compared field by field with the Lean model replaying the same operations "
             "(every coin resolution followed, filtered by the observed state). 35% of the trees are 'race' trees (long light branch, "
-            "shorter heavier branch) so that reorganisations to a SHORTER chain are frequent; one extra history per run imports 138 "
+            "shorter heavier branch) so that reorganisations to a SHORTER chain are frequent; 30 MIXED histories per run feed one chain through InsertChain and InsertHeaderChain (replayed on the composed "
+            "model XSt, full dump compared); one extra history per run imports 138 "
             "blocks on a pruning node with the default-sized cache (state garbage collection during import) and is judged directly "
             "only. The driver also checks the World hypothesis of the theorems (positive difficulty, no transaction twice along a chain) "
             "on every generated tree. Non-trivial = every history (each performs imports).",
@@ -32,6 +33,11 @@ CFG = {
                     "modelled (state availability changes only at Stop+reopen); longer chains are judged directly on the real code",
                     "SetHead is covered by the theorems when the block it lands on still has its state (always on an archive node); "
                     "otherwise the property FAILS (known finding sethead-stateless-leaves-index, Lean witness setHead_stateless_witness)",
+                    "mixed histories (InsertChain and InsertHeaderChain on one chain) are in scope: judged with the header head as 'the "
+                    "head' for the number index and the block head for bodies/receipts/lookups; the index clauses FAIL there on the "
+                    "unchanged tree (known finding mixed-import-stale-numbers-above-head, Lean witnesses; candidate fix in "
+                    ".work/patches/C03-insert-clears-numbers-above.diff); inv_reachable_mixed_partial covers full imports followed by "
+                    "header imports",
                     "after a rewind has orphaned side-chain blocks reorg may return 'invalid new chain': inv_reachable covers the "
                     "histories in which it does not (Admissible); proved impossible without a rewind",
                     "distinct blocks have distinct state roots (every generated block has its own coinbase)"],
